@@ -23,6 +23,9 @@ ALPHAS = [0.05, 0.01, 0.1, 0.5, 0.2]
 F4 = ['risk_ratio', 'risk_difference', 'odds_ratio', 'number_needed_to_treat']
 
 
+SHOWN = [0]
+
+
 def sidecar():
     return {s['name']: s for s in json.load(open(os.path.join(COQ, 'gen', 'sidecar.json')))['calc']}
 
@@ -311,6 +314,17 @@ def run_frame(fr):
         except Exception as ex:   # noqa
             out[cls] = {'error': type(ex).__name__ + ': ' + str(ex)[:80]}
             continue
+        SHOWN[0] = len(fr['rows']) + len(cls)       # a function of the case, so that a replay makes the same calls
+        if SHOWN[0] % 2 == 0:
+            # the documented display call between fit() and reading the results must not alter them
+            import io
+            import contextlib
+            with contextlib.redirect_stdout(io.StringIO()):
+                try:
+                    obj.summary(decimal=[0, 2, 3][SHOWN[0] // 2 % 3])
+                except Exception as ex:   # noqa
+                    out[cls] = {'error': 'summary(): ' + type(ex).__name__ + ': ' + str(ex)[:80]}
+                    continue
         res = obj.results
         o = {'levels': {}, 'miss': [obj._missing_e, obj._missing_d, obj._missing_ed]}
         for code in fr['codes']:
